@@ -205,6 +205,9 @@ func (g *gen) addFaults(f *Fn) {
 		f.HasErr = true
 		if g.coin(g.p.PDigErr) {
 			kind = "digerr"
+			if g.coin(0.25) {
+				kind = "digcycerr"
+			}
 		}
 	}
 	f.Faults = map[int]string{}
@@ -218,7 +221,7 @@ func (g *gen) addFaults(f *Fn) {
 	case 3:
 		f.Faults[0] = kind
 	}
-	if kind != "err" && kind != "digerr" && g.coin(0.3) {
+	if kind != "err" && kind != "digerr" && kind != "digcycerr" && g.coin(0.3) {
 		f.HasErr = true
 	}
 }
